@@ -83,14 +83,63 @@ func (e *Engine) VerifyFunc(fn *ssa.Function, blk *Block, props []string) (err e
 		}
 	}
 	x.entry = s.clone()
+	// witness terms: values asked from the solver when an obligation fails,
+	// used to build a concrete input for the replay on the real code
+	var wTerms []*Term
+	var wNames []string
+	if blk != nil {
+		for _, cl := range blk.Of("witness") {
+			n := 1
+			name := cl.Label
+			if k := strings.Index(name, ":"); k >= 0 {
+				fmt.Sscanf(name[k+1:], "%d", &n)
+				name = name[:k]
+			}
+			for k := 0; k < n; k++ {
+				sub := &Clause{Kind: "witness", Label: fmt.Sprintf("%s#%d", cl.Label, k), Text: strings.Replace(cl.Text, "$k", fmt.Sprint(k), -1), File: cl.File, Line: cl.Line}
+				e.dry++
+				v := x.evalClause(sub, x.entry, token.NoPos)
+				e.dry--
+				if t, ok := v.(*Term); ok {
+					wTerms = append(wTerms, t)
+					if strings.Contains(cl.Label, ":") {
+						wNames = append(wNames, fmt.Sprintf("%s[%d]", name, k))
+					} else {
+						wNames = append(wNames, name)
+					}
+				}
+			}
+		}
+	}
+	defer func() {
+		for _, ob := range e.Obls[start:] {
+			ob.ModelTerms = wTerms
+			ob.ModelNames = wNames
+			if blk != nil {
+				if r := blk.Of("replay"); len(r) > 0 {
+					ob.ReplayTemplate = strings.TrimSpace(r[0].Text)
+				}
+			}
+		}
+	}()
 	x.analyzeLoops()
 	x.checkLoopSpecs(blk)
 	x.runRegion(nil, 0, s.clone(), regionCB{}, false)
 	sig := fn.Signature
+	dead := 0
+	if blk != nil {
+		if d, ok := blk.Flags["deadcode"]; ok {
+			fmt.Sscanf(d, "%d", &dead)
+		}
+	}
+	var covers []*Obligation
 	for _, r := range x.rets {
 		site := fmt.Sprintf("ret%d", r.idx+1)
 		if ob := x.oblige("cover", site, r.pos, r.st, c.True(), "return site reachable"); ob != nil {
 			ob.Cover = true
+			ob.DeadGroup = shortFuncKey(fn)
+			ob.DeadAllowed = dead
+			covers = append(covers, ob)
 		}
 		if blk == nil {
 			continue
@@ -230,12 +279,7 @@ func (x *exec) frameGoal(key string, st *State) *Term {
 	rv := c.BoundVar("r", so.Idx)
 	var allowed []*Term
 	if so.Idx == Int {
-		allowed = append(allowed, c.Le(next0, rv)) // objects allocated by this call
-		if isFieldKey(key) {
-			// fields of elements of freshly allocated arrays and of their sub-objects
-			e.ensureElemAxioms()
-			allowed = append(allowed, c.And(c.Le(next0, c.App("elemArr", Int, rv)), c.Eq(c.App("elem", Int, c.App("elemArr", Int, rv), c.App("elemIdx", Int, rv)), rv)))
-		}
+		allowed = append(allowed, c.Le(next0, e.rootOf(rv))) // objects allocated by this call, their elements and sub-objects
 	}
 	var rowT []frameTarget
 	for _, tg := range fi.targets {
